@@ -12,11 +12,13 @@ MUTANTS = [
     ("ctor-info-filter", D, "        self.metadata.update(**info)", "        self.metadata.update({k: v for k, v in info.items() if isinstance(v, (str, list, float))})", "C11.1"),
     ("str-not-split", D, "        elif iterable and isinstance(iterable, str):\n            iterable = iterable.split()", "        elif iterable and isinstance(iterable, str):\n            iterable = [iterable]", "C11.6"),
     ("counts-not-filtered", D, "            iterable = {k: v for k, v in iterable.items() if v > 0}", "            iterable = {k: v for k, v in iterable.items() if v > 1}", "C11.6"),
+    ("reader-picks-keys", D, "            decay_mode = DecayMode.from_dict(d)\n", "            decay_mode = DecayMode(d['bf'], d['fs'], model=d.get('model', ''), model_params=d.get('model_params', ''))\n", "C11.7"),
     ("reader-wrong-element", D, "                    _build_decay_modes(decay_modes, fs[i])", "                    _build_decay_modes(decay_modes, fs[0])", "C11.7"),
     ("fs-not-popped", D, "        if daughters is None and \"fs\" in info:\n            daughters = info.pop(\"fs\")", "        if daughters is None and \"fs\" in info:\n            daughters = info.get(\"fs\")", "C11.1"),
     ("to-dict-wrong-mother", D, "        return recursively_replace(self.mother)", "        return recursively_replace(next(iter(self.decays)))", "C11.2"),
 ]
 BENIGN = [
+    ("reader-star-form", D, "            decay_mode = DecayMode.from_dict(d)\n", "            decay_mode = DecayMode(d.pop('bf'), d.pop('fs'), **d)\n"),
     ("from-dict-direct", D, "        return cls(**dm)\n", "        mode = cls(**dm)\n        return mode\n"),
     ("reader-cmp-local", D, "        if (\n            mother in decay_modes\n            and decay_modes[mother].to_dict() != decay_mode.to_dict()\n        ):", "        seen = decay_modes.get(mother)\n        if seen is not None and seen.to_dict() != decay_mode.to_dict():"),
 ]
